@@ -412,7 +412,8 @@ class BaseProperty(base.BaseObject):
         2
         3
         """
-        return list(self._values)
+        # The values of an odml style tuple are lists themselves: copy them as well.
+        return [list(val) if isinstance(val, list) else val for val in self._values]
 
     @values.setter
     def values(self, new_value):
